@@ -432,6 +432,15 @@ struct FuncEmitter {
         if (Fo->getInc())
           J.attribute("inc", (int64_t)ids[Fo->getInc()]);
         J.attribute("body", (int64_t)ids[Fo->getBody()]);
+      } else if (auto *FR = dyn_cast<CXXForRangeStmt>(S)) {
+        if (FR->getRangeInit())
+          J.attribute("range", (int64_t)ids[FR->getRangeInit()]);
+        if (FR->getLoopVariable()) {
+          J.attributeObject("loopvar", [&] { varAttrs(FR->getLoopVariable()); });
+        }
+        if (FR->getLoopVarStmt())
+          J.attribute("loopvarstmt", (int64_t)ids[FR->getLoopVarStmt()]);
+        J.attribute("body", (int64_t)ids[FR->getBody()]);
       } else if (auto *Wh = dyn_cast<WhileStmt>(S)) {
         J.attribute("cond", (int64_t)ids[Wh->getCond()]);
         J.attribute("body", (int64_t)ids[Wh->getBody()]);
